@@ -275,3 +275,31 @@ Definition promises_why (s : gstate) (j : nat) (n : nstate) : nat :=
 
 Definition restart_node (s : gstate) (cu : nat) (vo : option nat) (lt len sn cm : nat) (cf : config) : nstate :=
   mkN cu vo Follower (firstn len (tlogs s lt)) sn cm cf.
+
+(* ---------- the overlap hypothesis of the membership-change theorems, as a test ---------- *)
+
+Fixpoint nodupb (l : list nat) : bool :=
+  match l with [] => true | x :: r => negb (memb x r) && nodupb r end.
+
+Definition common (V1 V2 : list nat) : list nat := filter (fun x => memb x V2) V1.
+
+(* two duplicate-free voter lists with c common members have intersecting majorities if
+   |V1| + |V2| < 2c + 2 (this is also necessary) *)
+Definition overlap2b (V1 V2 : list nat) : bool :=
+  match V1, V2 with
+  | [], _ | _, [] => true
+  | _, _ => length V1 + length V2 <? 2 * length (common V1 V2) + 2
+  end.
+
+Definition overlapb (qs : list (list nat)) : bool :=
+  forallb nodupb qs && forallb (fun V1 => forallb (overlap2b V1) qs) qs.
+
+(* distinct voter lists a majority was counted over *)
+Fixpoint dedup_lists (qs : list (list nat)) : list (list nat) :=
+  match qs with
+  | [] => []
+  | q :: r => if existsb (nat_list_eqb q) r then dedup_lists r else q :: dedup_lists r
+  end.
+
+Definition overlap_state (s : gstate) : bool := overlapb (dedup_lists (quorums s)).
+Definition n_configs (s : gstate) : nat := length (dedup_lists (quorums s)).
